@@ -3,8 +3,8 @@
 // C19 harness: writes packet captures itself, lets the real fq decode them in-process and
 // prints, per case, `<abstract conversations and packet list> TAB <what fq reports>`:
 //
-//   fq <format> [S [K <ip> <port> <skipped> <start> <end> <stream> <ip> <port> <skipped> <start> <end> <stream>]* [R <datagram>]*]*
-//      T=<same|diff…> X [<conn>.<c|s>.<start><end>.<skip>.<data> | flush]*
+//	fq <format> [S [K <ip> <port> <skipped> <start> <end> <stream> <ip> <port> <skipped> <start> <end> <stream>]* [R <datagram>]*]*
+//	   T=<same|diff…> X [<conn>.<c|s>.<start><end>.<skip>.<data> | flush]*
 //
 // K = one tcp_connection (client fields then server fields, in fq's order), R = one entry of
 // ipv4_reassembled, X = the calls gopacket's assembler made into fq's ReassembledSG on the same
@@ -54,6 +54,18 @@ func dirText(d fqDir) string {
 	return fmt.Sprintf("%s %d %d %s %s %s", d.ip, d.port, d.skipped, b01(d.start), b01(d.end), blob(d.stream))
 }
 
+func sameSections(a, b []fqSection) string {
+	if len(a) != len(b) {
+		return fmt.Sprintf("diff:sections:%d:%d", len(a), len(b))
+	}
+	for i := range a {
+		if r := sameFlows(a[i].conns, a[i].reasm, b[i].conns, b[i].reasm); r != "same" {
+			return fmt.Sprintf("%s:section:%d", r, i)
+		}
+	}
+	return "same"
+}
+
 func sameFlows(a [][2]fqDir, ar [][]byte, b [][2]fqDir, br [][]byte) string {
 	if len(a) != len(b) {
 		return fmt.Sprintf("diff:connections:%d:%d", len(a), len(b))
@@ -92,20 +104,19 @@ func traceData(k *kase, b []byte) string {
 
 func observe(k *kase, fr fqResult) string {
 	obs, err := fr.obs, fr.err
+	_, facts := k.captureFacts()
 	if err != nil {
 		msg := err.Error()
 		if os.Getenv("C19_DEBUG") != "" {
 			fmt.Fprintln(os.Stderr, "fq error:", msg)
 		}
 		if strings.HasPrefix(msg, "panic") {
-			return "err:panic"
+			return "err:panic B=" + facts
 		}
-		return "err:decode"
+		return "err:decode B=" + facts
 	}
 	var sb strings.Builder
-	fmt.Fprintf(&sb, "fq %s", obs.format)
-	var allC [][2]fqDir
-	var allR [][]byte
+	fmt.Fprintf(&sb, "fq %s B=%s", obs.format, facts)
 	for _, s := range obs.sections {
 		sb.WriteString(" S")
 		for _, c := range s.conns {
@@ -114,18 +125,20 @@ func observe(k *kase, fr fqResult) string {
 		for _, r := range s.reasm {
 			fmt.Fprintf(&sb, " R %s", blob(r))
 		}
-		allC = append(allC, s.conns...)
-		allR = append(allR, s.reasm...)
 	}
-	t, err := runTrace(k)
+	t, err := runTrace(k, len(obs.sections) == 1 && len(k.secs) > 0)
 	if err != nil {
 		sb.WriteString(" T=err:panic X")
 		return sb.String()
 	}
-	fmt.Fprintf(&sb, " T=%s X", sameFlows(allC, allR, t.conns, t.reasm))
+	fmt.Fprintf(&sb, " T=%s X", sameSections(obs.sections, t.sections))
 	for _, e := range t.events {
 		if e.flush {
 			sb.WriteString(" flush")
+			continue
+		}
+		if e.newSection {
+			sb.WriteString(" N")
 			continue
 		}
 		c := e.call
@@ -187,6 +200,7 @@ var profiles = []profile{
 	{name: "mixed", maxConns: 4, noSynFin: true, perturb: 4, allowDup: true, allowSwap: true, allowOmit: true, allowFrag: true},
 	{name: "edge", maxConns: 2, noSynFin: true, perturb: 3, allowDup: true, allowSwap: true, edgeSwap: true},
 	{name: "fragmess", maxConns: 2, noSynFin: true, perturb: 3, allowFrag: true, fragMess: true, allowDup: true},
+	{name: "sections", maxConns: 3, noSynFin: true, perturb: 2, allowDup: true, allowSwap: true, allowOmit: true, allowFrag: true, sections: true},
 	{name: "big", maxConns: 2, noSynFin: true, perturb: 3, allowDup: true, allowSwap: true, allowOmit: true, big: true},
 }
 
@@ -212,7 +226,7 @@ func main() {
 
 	// per shard (lib/props/C19.json: 4 shards quick, 8 shards thorough)
 	counts := map[string]int{"plain": 10, "files": 40, "nosynfin": 40, "dup": 40, "swap": 40, "omit": 50, "frag": 40,
-		"mixed": 100, "edge": 40, "fragmess": 40, "big": 2}
+		"mixed": 100, "edge": 40, "fragmess": 40, "sections": 40, "big": 2}
 	if cfg.Thorough() {
 		for k := range counts {
 			counts[k] *= 10
